@@ -264,8 +264,22 @@ Proof.
 Qed.
 
 (* not one of the two markers that correspond to entries of macro_call_stack *)
-Definition nm (t : tok) : bool := match t with TEoa | TEor => false | _ => true end.
+Definition nm (t : tok) : bool := match t with TBoa | TEoa | TEor => false | _ => true end.
 Definition clean (l : list tok) : Prop := forallb nm l = true.
+(* the output buffer holds T_BOA markers, but never one of the other two *)
+Definition nmo (t : tok) : bool := match t with TEoa | TEor => false | _ => true end.
+Definition cleano (l : list tok) : Prop := forallb nmo l = true.
+Lemma nm_nmo : forall t, nm t = true -> nmo t = true. Proof. intros t; destruct t; cbn; congruence. Qed.
+Lemma cleano_cons : forall t l, cleano (t :: l) <-> nmo t = true /\ cleano l.
+Proof. intros; unfold cleano; cbn; rewrite andb_true_iff; tauto. Qed.
+
+(* T_BOA markers / calls waiting for the expansion of an argument *)
+Definition is_boa (t : tok) : bool := match t with TBoa => true | _ => false end.
+Definition cb (l : list tok) : nat := length (filter is_boa l).
+Lemma cb_app : forall a b, cb (a ++ b) = cb a + cb b.
+Proof. intros; unfold cb; rewrite filter_app, app_length; reflexivity. Qed.
+Lemma cb_nm_cons : forall t l, nm t = true -> cb (t :: l) = cb l.
+Proof. intros t l H; destruct t; cbn in *; try discriminate; reflexivity. Qed.
 
 (* the markers of the pending input, innermost first: true = T_EOR, false = T_EOA *)
 Fixpoint markers (i : list tok) : list bool :=
@@ -283,9 +297,16 @@ Proof.
   unfold clean; induction l as [|t l IH]; cbn; intros H; [reflexivity|].
   apply andb_true_iff in H as [H1 H2]. destruct t; cbn in *; try discriminate; auto.
 Qed.
-Lemma markers_nm_cons : forall t r, nm t = true -> markers (t :: r) = markers r.
+Lemma markers_nmo_cons : forall t r, nmo t = true -> markers (t :: r) = markers r.
 Proof. intros t r H; destruct t; cbn in *; try discriminate; reflexivity. Qed.
+Lemma markers_nm_cons : forall t r, nm t = true -> markers (t :: r) = markers r.
+Proof. intros t r H; apply markers_nmo_cons, nm_nmo, H. Qed.
 
+Lemma cb_clean : forall l, clean l -> cb l = 0.
+Proof.
+  unfold clean; induction l as [|t l IH]; intros H; [reflexivity|]. cbn in H. apply andb_true_iff in H as [H1 H2].
+  rewrite cb_nm_cons by exact H1. auto.
+Qed.
 Lemma clean_app : forall a b, clean (a ++ b) <-> clean a /\ clean b.
 Proof. intros; unfold clean; rewrite forallb_app, andb_true_iff; tauto. Qed.
 Lemma clean_cons : forall t l, clean (t :: l) <-> nm t = true /\ clean l.
@@ -378,52 +399,78 @@ Qed.
 Definition in_rescan (mc : mcall) : bool := match mc_prev mc with [] => true | _ => false end.
 Definition names_R (cs : list mcall) : list spelling := map mc_name (filter in_rescan cs).
 
-Fixpoint a_ok (cs : list mcall) : Prop :=
-  match cs with
-  | [] => True
-  | mc :: r => (in_rescan mc = false -> ~ In (mc_name mc) (names_R r)) /\ a_ok r
-  end.
+Lemma names_R_cons_R : forall mc cs, in_rescan mc = true -> names_R (mc :: cs) = mc_name mc :: names_R cs.
+Proof. intros mc cs H; unfold names_R; cbn; rewrite H; reflexivity. Qed.
+Lemma names_R_cons_A : forall mc cs, in_rescan mc = false -> names_R (mc :: cs) = names_R cs.
+Proof. intros mc cs H; unfold names_R; cbn; rewrite H; reflexivity. Qed.
 
 Definition mc_clean (mc : mcall) : Prop := clean (mc_buf mc) /\ cleans (mc_args mc) /\ clean (mc_rest mc).
 Definition table_clean (d : defs) : Prop := forall n m, d n = Some m -> clean (m_body m).
 
+Definition cA (cs : list mcall) : nat := length (filter (fun mc => negb (in_rescan mc)) cs).
+Lemma cA_cons_R : forall mc cs, in_rescan mc = true -> cA (mc :: cs) = cA cs.
+Proof. intros mc cs H; unfold cA; cbn; rewrite H; reflexivity. Qed.
+Lemma cA_cons_A : forall mc cs, in_rescan mc = false -> cA (mc :: cs) = S (cA cs).
+Proof. intros mc cs H; unfold cA; cbn; rewrite H; reflexivity. Qed.
+
+Section Inv.
+(* [ig0]: the names that are ignored from the start and stay so (none for a file; the macros being rescanned
+   around it for an argument expanded in isolation) *)
+Variable ig0 : list spelling.
+
+Fixpoint a_ok (cs : list mcall) : Prop :=
+  match cs with
+  | [] => True
+  | mc :: r => (in_rescan mc = false -> ~ In (mc_name mc) (names_R r ++ ig0)) /\ a_ok r
+  end.
+
 Record cinv (i : list tok) (cs : list mcall) (ig : list spelling) : Prop := mkcinv {
   c_mark : markers i = map in_rescan cs;       (* one T_EOR / T_EOA per call, in stack order *)
-  c_ign : ig = names_R cs;                     (* ignore_p is set exactly for the calls being rescanned *)
+  c_ign : ig = names_R cs ++ ig0;              (* ignore_p is set exactly for the calls being rescanned *)
   c_nodup : NoDup ig;                          (* ... which are calls of pairwise different macros *)
   c_aok : a_ok cs;
   c_clean : Forall mc_clean cs }.
 
-Definition inv (s : state) : Prop := cinv (inp s) (calls s) (ign s) /\ clean (out s).
+(* ... the output buffer has no T_EOA/T_EOR, and one T_BOA (on the input for a moment, then in the output buffer)
+   per call that waits for the expansion of an argument *)
+Definition inv (s : state) : Prop :=
+  cinv (inp s) (calls s) (ign s) /\ cleano (out s) /\ cb (inp s) + cb (out s) = cA (calls s).
 
+Lemma cinv_nmo_cons : forall t r cs ig, nmo t = true -> cinv (t :: r) cs ig -> cinv r cs ig.
+Proof. intros t r cs ig Ht [H1 H2 H3 H4 H5]; constructor; try assumption. rewrite <- H1. symmetry; apply markers_nmo_cons; assumption. Qed.
 Lemma cinv_nm_cons : forall t r cs ig, nm t = true -> cinv (t :: r) cs ig -> cinv r cs ig.
-Proof. intros t r cs ig Ht [H1 H2 H3 H4 H5]; constructor; try assumption. rewrite <- H1. symmetry; apply markers_nm_cons; assumption. Qed.
+Proof. intros t r cs ig Ht; apply cinv_nmo_cons, nm_nmo, Ht. Qed.
 Lemma cinv_nm_cons' : forall t r cs ig, nm t = true -> cinv r cs ig -> cinv (t :: r) cs ig.
 Proof. intros t r cs ig Ht [H1 H2 H3 H4 H5]; constructor; try assumption. rewrite <- H1. apply markers_nm_cons; assumption. Qed.
 
 Lemma cinv_pop : forall r cs ig, cinv (TEor :: r) cs ig ->
-  exists cs' ig', pop_call cs ig = Some (cs', ig') /\ cinv r cs' ig' /\ (forall x, In x ig' -> In x ig).
+  exists cs' ig', pop_call cs ig = Some (cs', ig') /\ cinv r cs' ig' /\ (forall x, In x ig' -> In x ig) /\ cA cs' = cA cs.
 Proof.
   intros r cs ig [H1 H2 H3 H4 H5]. cbn in H1. destruct cs as [|mc cs]; [discriminate|].
   cbn in H1. inversion H1 as [[Hm Hr]]. exists cs, (unignore (mc_name mc) ig). split; [reflexivity|].
-  unfold names_R in H2; cbn in H2. rewrite <- Hm in H2. cbn in H2. fold (names_R cs) in H2.
-  split; [|intros x; apply unignore_incl].
+  rewrite (cA_cons_R mc cs (eq_sym Hm)).
+  rewrite names_R_cons_R in H2 by (symmetry; exact Hm). cbn [app] in H2.
+  split; [|split; [intros x; apply unignore_incl|reflexivity]].
   subst ig. rewrite unignore_head by assumption.
   constructor; [exact Hr|reflexivity|inversion H3; assumption|exact (proj2 H4)|inversion H5; assumption].
 Qed.
 
 Lemma skip_inv : forall i cs ig ws, cinv i cs ig ->
-  exists i' cs' ig' ws', skip_to_paren i cs ig ws = Some (i', cs', ig', ws') /\ cinv i' cs' ig' /\ (forall x, In x ig' -> In x ig).
+  exists i' cs' ig' ws', skip_to_paren i cs ig ws = Some (i', cs', ig', ws') /\ cinv i' cs' ig' /\
+                         (forall x, In x ig' -> In x ig) /\ cb i' = cb i /\ cA cs' = cA cs.
 Proof.
   induction i as [|t i IH]; intros cs ig ws H.
   - exists [], cs, ig, ws. cbn. auto.
   - destruct t; cbn [skip_to_paren];
       try (do 4 eexists; split; [reflexivity|split; [exact H|auto]]).
-    + apply IH. eapply cinv_nm_cons; [|exact H]; reflexivity.
-    + apply IH. eapply cinv_nm_cons; [|exact H]; reflexivity.
-    + destruct (cinv_pop _ _ _ H) as [cs1 [ig1 [E [Hc Hi]]]]. rewrite E.
-      destruct (IH cs1 ig1 ws Hc) as [i' [cs' [ig' [ws' [E2 [Hc2 Hi2]]]]]].
-      exists i', cs', ig', ws'. split; [exact E2|]. split; [exact Hc2|auto].
+    + destruct (IH cs ig (Some TSp)) as [i' [cs' [ig' [ws' [E [Hc [Hi [Hb Ha]]]]]]]]; [eapply cinv_nm_cons; [|exact H]; reflexivity|].
+      exists i', cs', ig', ws'. rewrite cb_nm_cons by reflexivity. auto.
+    + destruct (IH cs ig (Some TNl)) as [i' [cs' [ig' [ws' [E [Hc [Hi [Hb Ha]]]]]]]]; [eapply cinv_nm_cons; [|exact H]; reflexivity|].
+      exists i', cs', ig', ws'. rewrite cb_nm_cons by reflexivity. auto.
+    + destruct (cinv_pop _ _ _ H) as [cs1 [ig1 [E [Hc [Hi Ha1]]]]]. rewrite E.
+      destruct (IH cs1 ig1 ws Hc) as [i' [cs' [ig' [ws' [E2 [Hc2 [Hi2 [Hb2 Ha2]]]]]]]].
+      exists i', cs', ig', ws'. split; [exact E2|]. split; [exact Hc2|].
+      split; [auto|]. split; [exact Hb2|congruence].
 Qed.
 
 Lemma skip_ws_nm : forall i cs ig ws i' cs' ig' ws',
@@ -449,7 +496,7 @@ Qed.
 Lemma find_args_inv : forall q i cs ig plen var level va_p args arg nlp es,
   cinv i cs ig -> cleans args -> clean arg ->
   match find_args q i cs ig plen var level va_p args arg nlp es with
-  | FaOk r cs' ig' a => cinv r cs' ig' /\ (forall x, In x ig' -> In x ig) /\ cleans a
+  | FaOk r cs' ig' a => cinv r cs' ig' /\ (forall x, In x ig' -> In x ig) /\ cleans a /\ cb r = cb i /\ cA cs' = cA cs
   | FaBad w => w <> 12 /\ 10 <= w
   end.
 Proof.
@@ -460,7 +507,7 @@ Proof.
                  end).
   { destruct (fa_finish q plen (rev (rev arg :: args))) eqn:E; [|exact I].
     eapply fa_finish_cleans; [|exact E]. unfold cleans. apply Forall_rev. constructor; [apply clean_rev; assumption|assumption]. }
-  assert (Hgen : forall t', nm t' = true -> t' <> TBoa -> cinv (t' :: i) cs ig ->
+  assert (Hgen : forall t', nm t' = true -> cinv (t' :: i) cs ig ->
      match (if nlp && is_punct sharp t' then FaBad 14
             else if (level =? 0) && is_punct rparen t' then
                    match fa_finish q plen (rev (rev arg :: args)) with
@@ -472,23 +519,23 @@ Proof.
             else find_args q i cs ig plen var
                            (if is_punct rparen t' then level - 1 else if is_punct lparen t' then level + 1 else level)
                            va_p args (t' :: arg) (match t' with TNl => true | _ => false end) false) with
-     | FaOk r cs' ig' a => cinv r cs' ig' /\ (forall x, In x ig' -> In x ig) /\ cleans a
+     | FaOk r cs' ig' a => cinv r cs' ig' /\ (forall x, In x ig' -> In x ig) /\ cleans a /\ cb r = cb (t' :: i) /\ cA cs' = cA cs
      | FaBad w => w <> 12 /\ 10 <= w
      end).
-  { intros t' Hn Hb Hc. apply cinv_nm_cons in Hc; [|assumption].
+  { intros t' Hn Hc. apply cinv_nm_cons in Hc; [|assumption]. rewrite cb_nm_cons by exact Hn.
     destruct (nlp && is_punct sharp t'); [split; [discriminate|lia]|].
     destruct ((level =? 0) && is_punct rparen t').
     - destruct (fa_finish q plen (rev (rev arg :: args))); [|split; [discriminate|lia]]. auto.
     - destruct ((level =? 0) && negb va_p && is_punct comma t').
       + apply IH; [assumption| |reflexivity]. constructor; [apply clean_rev; assumption|assumption].
       + apply IH; [assumption|assumption|]. apply clean_cons; split; assumption. }
-  destruct t; cbn [find_args]; try (apply Hgen; [reflexivity|discriminate|exact H]); try (split; [discriminate|lia]).
+  destruct t; cbn [find_args]; try (apply Hgen; [reflexivity|exact H]); try (split; [discriminate|lia]).
   (* TEor *)
   destruct (q_single_eor q && es); [split; [discriminate|lia]|].
-  destruct (cinv_pop _ _ _ H) as [cs1 [ig1 [E [Hc Hi]]]]. rewrite E.
+  destruct (cinv_pop _ _ _ H) as [cs1 [ig1 [E [Hc [Hi Ha1]]]]]. rewrite E.
   specialize (IH cs1 ig1 plen var level va_p args arg nlp true Hc Ha Hg).
   destruct (find_args q i cs1 ig1 plen var level va_p args arg nlp true); [|exact IH].
-  destruct IH as [I1 [I2 I3]]. auto.
+  destruct IH as [I1 [I2 [I3 [I4 I5]]]]. split; [exact I1|]. split; [auto|]. split; [exact I3|]. split; [exact I4|congruence].
 Qed.
 
 Inductive pr_ok : pr_result -> Prop :=
@@ -516,46 +563,50 @@ Proof.
     + constructor; try assumption. discriminate.
 Qed.
 
-Lemma names_R_cons_R : forall mc cs, in_rescan mc = true -> names_R (mc :: cs) = mc_name mc :: names_R cs.
-Proof. intros mc cs H; unfold names_R; cbn; rewrite H; reflexivity. Qed.
-Lemma names_R_cons_A : forall mc cs, in_rescan mc = false -> names_R (mc :: cs) = names_R cs.
-Proof. intros mc cs H; unfold names_R; cbn; rewrite H; reflexivity. Qed.
-
 Lemma run_repl_inv : forall q r out0 mc cs ig s',
-  cinv r cs ig -> mc_clean mc -> clean out0 -> ~ In (mc_name mc) ig ->
+  cinv r cs ig -> mc_clean mc -> cleano out0 -> ~ In (mc_name mc) ig -> cb r + cb out0 = cA cs ->
   run_repl q r out0 mc cs ig = Next s' -> inv s'.
 Proof.
-  intros q r out0 mc cs ig s' [H1 H2 H3 H4 H5] [Hb [Ha Hr]] Ho Hn E. unfold run_repl in E.
+  intros q r out0 mc cs ig s' [H1 H2 H3 H4 H5] [Hb [Ha Hr]] Ho Hn Hcnt E. unfold run_repl in E.
   pose proof (proc_repl_ok (q_plm_ws q) (mc_params mc) (mc_rest mc) (mc_prev mc) None (mc_args mc) (mc_buf mc) Hr Ha Hb) as Hp.
   destruct (proc_repl _ _ _ _ _ _) as [args buf|i prev rest args buf];
     [inversion Hp as [? ? Hca Hcb|]|inversion Hp as [|? ? ? ? ? Hca Hcb Hcr Hpn]]; subst.
   - destruct (do_concat _ buf) as [l|] eqn:D; [|discriminate]. inversion E; subst. clear E.
     pose proof (do_concat_clean _ _ _ Hcb D) as Hl.
-    split; [|exact Ho]. cbn [inp calls ign].
-    constructor.
-    + rewrite markers_app, (markers_clean _ Hl). cbn. rewrite H1. reflexivity.
-    + rewrite names_R_cons_R by reflexivity. reflexivity.
-    + constructor; assumption.
-    + cbn. split; [discriminate|assumption].
-    + constructor; [|assumption]. repeat split; cbn; try assumption; try reflexivity.
-  - inversion E; subst. clear E. split; [|exact Ho]. cbn [inp calls ign].
+    split; [|split; [exact Ho|]]; cbn [inp out calls ign].
+    + constructor.
+      * rewrite markers_app, (markers_clean _ Hl). cbn. rewrite H1. reflexivity.
+      * rewrite names_R_cons_R by reflexivity. reflexivity.
+      * constructor; assumption.
+      * cbn. split; [discriminate|assumption].
+      * constructor; [|assumption]. repeat split; cbn; try assumption; try reflexivity.
+    + rewrite cb_app, (cb_clean _ Hl). rewrite cA_cons_R by reflexivity. cbn. exact Hcnt.
+  - inversion E; subst. clear E.
     assert (Hph : in_rescan (mkmc (mc_name mc) (mc_params mc) prev rest args buf) = false).
     { unfold in_rescan; cbn. destruct prev; [congruence|reflexivity]. }
-    constructor.
-    + cbn. rewrite markers_app, (markers_clean _ (nth_cleans _ i Hca)). cbn. rewrite H1, Hph. reflexivity.
-    + rewrite names_R_cons_A by exact Hph. reflexivity.
-    + assumption.
-    + cbn. split; [intros _; exact Hn|assumption].
-    + constructor; [|assumption]. repeat split; cbn; try assumption; try reflexivity.
+    split; [|split; [exact Ho|]]; cbn [inp out calls ign].
+    + constructor.
+      * cbn. rewrite markers_app, (markers_clean _ (nth_cleans _ i Hca)). cbn. rewrite H1, Hph. reflexivity.
+      * rewrite names_R_cons_A by exact Hph. reflexivity.
+      * assumption.
+      * cbn. split; [intros _; exact Hn|assumption].
+      * constructor; [|assumption]. repeat split; cbn; try assumption; try reflexivity.
+    + rewrite cA_cons_A by exact Hph.
+      change (cb (TBoa :: nth i args [] ++ TEoa :: r)) with (S (cb (nth i args [] ++ TEoa :: r))).
+      rewrite cb_app, (cb_clean _ (nth_cleans _ i Hca)). cbn [plus]. change (cb (TEoa :: r)) with (cb r). lia.
 Qed.
 
-Lemma split_boa_clean : forall o acc a o', clean o -> clean acc -> split_boa o acc = Some (a, o') -> clean a /\ clean o'.
+Lemma split_boa_clean : forall o acc a o', cleano o -> clean acc -> split_boa o acc = Some (a, o') ->
+  clean a /\ cleano o' /\ cb o = S (cb o').
 Proof.
   induction o as [|t o IH]; intros acc a o' Ho Hacc E; [discriminate|].
-  apply clean_cons in Ho as [Ht Ho].
-  destruct t; cbn [split_boa] in E; try (cbn in Ht; discriminate);
-    try (eapply IH; [exact Ho| |exact E]; apply clean_cons; split; [reflexivity|assumption]).
-  inversion E; subst; split; assumption.
+  apply cleano_cons in Ho as [Ht Ho].
+  assert (Hrec : forall t', nm t' = true -> split_boa o (t' :: acc) = Some (a, o') ->
+                            clean a /\ cleano o' /\ cb (t' :: o) = S (cb o')).
+  { intros t' Hn E'. assert (Hacc' : clean (t' :: acc)) by (apply clean_cons; split; assumption).
+    destruct (IH _ _ _ Ho Hacc' E') as [I1 [I2 I3]]. rewrite cb_nm_cons by exact Hn. auto. }
+  destruct t; cbn [split_boa] in E; try (cbn in Ht; discriminate); try (apply Hrec; [reflexivity|exact E]).
+  inversion E; subst. repeat split; assumption.
 Qed.
 
 (* the invariant is kept by every iteration of the main loop, and the checks for an empty stack never fire *)
@@ -566,92 +617,109 @@ Lemma step_inv : forall q d s, table_clean d -> inv s ->
   | Done => True
   end.
 Proof.
-  intros q d [i o cs ig n] Ht [Hc Ho]. cbn [inp out calls ign] in *. unfold step; cbn [inp out calls ign nl].
+  intros q d [i o cs ig n] Ht [Hc [Ho Hcnt]]. cbn [inp out calls ign] in *. unfold step; cbn [inp out calls ign nl].
   destruct i as [|t r]; [exact I|].
   destruct (n && is_punct sharp t); [repeat split; discriminate|].
-  assert (Hout : forall t' n', nm t' = true -> cinv (t' :: r) cs ig -> inv (out_tok (mkst (t :: r) o cs ig n) r t' n')).
-  { intros t' n' Hn Hc'. split; cbn; [eapply cinv_nm_cons; eassumption|]. apply clean_cons; split; assumption. }
-  destruct t; try (apply Hout; [reflexivity|exact Hc]).
+  assert (Hout : forall t' n', nmo t' = true -> cb r + cb (t' :: o) = cb (t :: r) + cb o ->
+                               cinv (t' :: r) cs ig -> inv (out_tok (mkst (t :: r) o cs ig n) r t' n')).
+  { intros t' n' Hn He Hc'. split; [|split]; unfold out_tok; cbn [inp out calls ign].
+    - eapply cinv_nmo_cons; eassumption.
+    - apply cleano_cons; split; assumption.
+    - rewrite He. exact Hcnt. }
+  assert (Hmove : cb r + cb (t :: o) = cb (t :: r) + cb o).
+  { unfold cb; cbn [filter]. destruct (is_boa t); cbn [length]; lia. }
+  destruct t; try (apply Hout; [reflexivity|apply Hmove|exact Hc]).
   - (* identifier *)
-    destruct painted; [apply Hout; [reflexivity|exact Hc]|].
-    destruct (d s) as [m|] eqn:Ed; [|apply Hout; [reflexivity|exact Hc]].
+    assert (Hcnt' : cb r + cb o = cA cs) by (rewrite cb_nm_cons in Hcnt by reflexivity; exact Hcnt).
+    destruct painted; [apply Hout; [reflexivity|apply Hmove|exact Hc]|].
+    destruct (d s) as [m|] eqn:Ed; [|apply Hout; [reflexivity|apply Hmove|exact Hc]].
     destruct (ignored ig s) eqn:Ei.
-    { split; cbn; [eapply cinv_nm_cons; [|exact Hc]; reflexivity|apply clean_cons; split; [reflexivity|assumption]]. }
+    { split; [|split]; unfold out_tok; cbn [inp out calls ign];
+        [eapply cinv_nm_cons; [|exact Hc]; reflexivity|apply cleano_cons; split; [reflexivity|assumption]|].
+      rewrite cb_nm_cons by reflexivity. exact Hcnt'. }
     assert (Hni : ~ In s ig) by (intros Hi; apply ignored_In in Hi; congruence).
     apply cinv_nm_cons in Hc; [|reflexivity].
     destruct (m_params m) as [ps|].
-    + destruct (skip_inv r cs ig None Hc) as [i1 [cs1 [ig1 [ws1 [E [Hc1 Hi1]]]]]]. rewrite E.
-      destruct i1 as [|t1 i1]; cbn [tl].
-      { split; cbn; [|apply clean_cons; split; [reflexivity|assumption]].
-        destruct ws1 as [w|]; [|assumption].
-        assert (Hw : nm w = true).
-        { eapply (skip_ws_nm _ _ _ _ _ _ _ _ (fun w (Hs : None = Some w) => ltac:(discriminate)) E); reflexivity. }
-        apply cinv_nm_cons'; assumption. }
-      destruct (is_punct lparen t1) eqn:Ep.
-      * assert (Hn1 : nm t1 = true) by (destruct t1; cbn in *; congruence).
-        apply cinv_nm_cons in Hc1; [|exact Hn1].
-        pose proof (find_args_inv q i1 cs1 ig1 (length ps) (variadic ps) 0 ((length ps =? 1) && variadic ps) [] [] false false Hc1
-                                  (Forall_nil _) eq_refl) as Hf.
-        destruct (find_args q i1 cs1 ig1 _ _ _ _ _ _ _ _) as [rest cs2 ig2 a|w]; [|destruct Hf as [Hf1 Hf2]; repeat split; try assumption; lia].
-        destruct Hf as [Hc2 [Hi2 Ha]].
-        destruct (run_repl q rest o (mkmc s ps [] (m_body m) a []) cs2 ig2) as [|s'|w] eqn:Er.
-        -- exact I.
-        -- eapply run_repl_inv; [exact Hc2| |exact Ho| |exact Er].
-           ++ repeat split; cbn; try assumption; try reflexivity; try exact (Ht _ _ Ed).
-           ++ cbn. intros Hi. apply Hni. auto.
-        -- unfold run_repl in Er.
-           destruct (proc_repl _ _ _ _ _ _); [destruct (do_concat _); [discriminate|]|discriminate].
-           inversion Er; subst. repeat split; discriminate.
-      * split; cbn; [|apply clean_cons; split; [reflexivity|assumption]].
-        destruct ws1 as [w|]; [|assumption].
-        assert (Hw : nm w = true).
-        { eapply (skip_ws_nm _ _ _ _ _ _ _ _ (fun w (Hs : None = Some w) => ltac:(discriminate)) E); reflexivity. }
-        apply cinv_nm_cons'; assumption.
+    + destruct (skip_inv r cs ig None Hc) as [i1 [cs1 [ig1 [ws1 [E [Hc1 [Hi1 [Hb1 Ha1]]]]]]]]. rewrite E.
+      assert (Hnc : inv (mkst (match ws1 with Some w => w :: i1 | None => i1 end) (TIdent false s :: o) cs1 ig1 false)).
+      { assert (Hw : forall w, ws1 = Some w -> nm w = true).
+        { eapply (skip_ws_nm _ _ _ _ _ _ _ _ (fun w (Hs : None = Some w) => ltac:(discriminate)) E). }
+        split; [|split]; cbn [inp out calls ign].
+        - destruct ws1 as [w|]; [apply cinv_nm_cons'; [apply Hw; reflexivity|assumption]|assumption].
+        - apply cleano_cons; split; [reflexivity|assumption].
+        - rewrite (cb_nm_cons (TIdent false s)) by reflexivity. rewrite Ha1, <- Hcnt', <- Hb1.
+          destruct ws1 as [w|]; [rewrite cb_nm_cons by (apply Hw; reflexivity)|]; reflexivity. }
+      destruct i1 as [|t1 i1]; cbn [tl]; [exact Hnc|].
+      destruct (is_punct lparen t1) eqn:Ep; [|exact Hnc]. clear Hnc.
+      assert (Hn1 : nm t1 = true) by (destruct t1; cbn in *; congruence).
+      apply cinv_nm_cons in Hc1; [|exact Hn1]. rewrite cb_nm_cons in Hb1 by exact Hn1.
+      pose proof (find_args_inv q i1 cs1 ig1 (length ps) (variadic ps) 0 ((length ps =? 1) && variadic ps) [] [] false false Hc1
+                                (Forall_nil _) eq_refl) as Hf.
+      destruct (find_args q i1 cs1 ig1 _ _ _ _ _ _ _ _) as [rest cs2 ig2 a|w];
+        [|destruct Hf as [Hf1 Hf2]; repeat split; try assumption; lia].
+      destruct Hf as [Hc2 [Hi2 [Ha [Hb2 Ha2]]]].
+      destruct (run_repl q rest o (mkmc s ps [] (m_body m) a []) cs2 ig2) as [|s'|w] eqn:Er.
+      * exact I.
+      * eapply run_repl_inv; [exact Hc2| |exact Ho| | |exact Er].
+        -- repeat split; cbn; try assumption; try reflexivity; try exact (Ht _ _ Ed).
+        -- cbn. intros Hi. apply Hni. auto.
+        -- congruence.
+      * unfold run_repl in Er.
+        destruct (proc_repl _ _ _ _ _ _); [destruct (do_concat _); [discriminate|]|discriminate].
+        inversion Er; subst. repeat split; discriminate.
     + destruct (do_concat _ (add_tokens [] (m_body m))) as [l|] eqn:D; [|repeat split; discriminate].
       assert (Hl : clean l).
       { eapply do_concat_clean; [|exact D]. apply add_tokens_clean; [reflexivity|exact (Ht _ _ Ed)]. }
-      destruct Hc as [H1 H2 H3 H4 H5]. split; [|exact Ho]. cbn [inp calls ign]. constructor.
-      * rewrite markers_app, (markers_clean _ Hl). cbn. rewrite H1. reflexivity.
-      * rewrite names_R_cons_R by reflexivity. cbn. rewrite H2. reflexivity.
-      * constructor; assumption.
-      * cbn. split; [discriminate|assumption].
-      * constructor; [|assumption]. repeat split; cbn; try reflexivity; constructor.
+      destruct Hc as [H1 H2 H3 H4 H5]. split; [|split; [exact Ho|]]; cbn [inp out calls ign].
+      * constructor.
+        -- rewrite markers_app, (markers_clean _ Hl). cbn. rewrite H1. reflexivity.
+        -- rewrite names_R_cons_R by reflexivity. cbn [app mc_name]. rewrite H2. reflexivity.
+        -- constructor; assumption.
+        -- cbn. split; [discriminate|assumption].
+        -- constructor; [|assumption]. repeat split; cbn; try reflexivity; constructor.
+      * rewrite cb_app, (cb_clean _ Hl). rewrite cA_cons_R by reflexivity. cbn. exact Hcnt'.
   - (* TEoa *)
     destruct Hc as [H1 H2 H3 H4 H5]. cbn in H1. destruct cs as [|mc cs]; [discriminate|].
     cbn in H1. inversion H1 as [[Hm Hr]]. symmetry in Hm.
+    rewrite (cA_cons_A mc cs Hm) in Hcnt. change (cb (TEoa :: r)) with (cb r) in Hcnt.
     destruct (split_boa o []) as [[a o0]|] eqn:Es; [|repeat split; discriminate].
-    destruct (split_boa_clean o [] a o0 Ho (eq_refl : clean []) Es) as [Ha Ho0].
+    destruct (split_boa_clean o [] a o0 Ho (eq_refl : clean []) Es) as [Ha [Ho0 Hcb]].
     inversion H5 as [|? ? [Hb [Hargs Hrest]] H5']; subst.
     rewrite names_R_cons_A in H3 |- * by exact Hm.
-    destruct (run_repl q r o0 _ cs (names_R cs)) as [|s'|w] eqn:Er.
+    destruct (run_repl q r o0 _ cs (names_R cs ++ ig0)) as [|s'|w] eqn:Er.
     + exact I.
-    + eapply run_repl_inv; [| | | |exact Er].
+    + eapply run_repl_inv; [| | | | |exact Er].
       * constructor; [exact Hr|reflexivity|exact H3|exact (proj2 H4)|exact H5'].
       * repeat split; cbn; try assumption; apply add_tokens_clean; assumption.
       * exact Ho0.
       * cbn. exact (proj1 H4 Hm).
+      * lia.
     + unfold run_repl in Er.
       destruct (proc_repl _ _ _ _ _ _); [destruct (do_concat _); [discriminate|]|discriminate].
       inversion Er; subst. repeat split; discriminate.
   - (* TEor *)
-    destruct (cinv_pop _ _ _ Hc) as [cs1 [ig1 [E [Hc1 _]]]]. rewrite E. split; assumption.
+    destruct (cinv_pop _ _ _ Hc) as [cs1 [ig1 [E [Hc1 [_ Ha1]]]]]. rewrite E.
+    split; [assumption|split; [assumption|]]. cbn [inp out calls]. change (cb (TEor :: r)) with (cb r) in Hcnt. congruence.
 Qed.
+
+End Inv.
 
 (* ---------- reachable states ---------- *)
 Inductive reach (q : quirks) (d : defs) : state -> Prop :=
 | reach_init : forall input, clean input -> reach q d (init input)
 | reach_step : forall s s', reach q d s -> step q d s = Next s' -> reach q d s'.
 
-Lemma init_inv : forall input, clean input -> inv (init input).
+Lemma init_inv : forall input, clean input -> inv [] (init input).
 Proof.
-  intros input H; split; [|reflexivity]. cbn. constructor; cbn; try constructor.
-  apply markers_clean; assumption.
+  intros input H; split; [|split; [reflexivity|]]; cbn [init inp out calls ign].
+  - constructor; cbn; try constructor. apply markers_clean; assumption.
+  - rewrite (cb_clean _ H). reflexivity.
 Qed.
 
-Lemma reach_inv : forall q d s, table_clean d -> reach q d s -> inv s.
+Lemma reach_inv : forall q d s, table_clean d -> reach q d s -> inv [] s.
 Proof.
   intros q d s Ht H; induction H as [input Hi|s s' Hr IH E]; [apply init_inv; assumption|].
-  pose proof (step_inv q d s Ht IH) as Hs. rewrite E in Hs. exact Hs.
+  pose proof (step_inv [] q d s Ht IH) as Hs. rewrite E in Hs. exact Hs.
 Qed.
 
 (* the calls on the stack are calls of macros of the table *)
@@ -739,7 +807,7 @@ Lemma painting_discipline_lemma : forall q d s names, table_clean d -> (forall n
   NoDup (ign s) /\ ign s = names_R (calls s) /\ length (ign s) <= length names /\
   markers (inp s) = map in_rescan (calls s).
 Proof.
-  intros q d s names Ht Hn Hr. destruct (reach_inv q d s Ht Hr) as [[H1 H2 H3 H4 H5] Ho].
+  intros q d s names Ht Hn Hr. destruct (reach_inv q d s Ht Hr) as [[H1 H2 H3 H4 H5] [Ho Hcnt]]. rewrite app_nil_r in H2.
   repeat split; try assumption.
   apply NoDup_incl_length; [assumption|]. intros x Hx. apply Hn. rewrite H2 in Hx.
   destruct (names_R_incl _ _ Hx) as [mc [Hi E]]. pose proof (reach_in_table q d s Hr) as Hd.
@@ -748,7 +816,7 @@ Qed.
 
 Lemma no_stack_underflow_lemma : forall q d s w, table_clean d -> reach q d s -> step q d s = Bad w ->
   w <> 2 /\ w <> 4 /\ w <> 5 /\ w <> 12.
-Proof. intros q d s w Ht Hr E. pose proof (step_inv q d s Ht (reach_inv q d s Ht Hr)) as H. rewrite E in H. exact H. Qed.
+Proof. intros q d s w Ht Hr E. pose proof (step_inv [] q d s Ht (reach_inv q d s Ht Hr)) as H. rewrite E in H. exact H. Qed.
 
 (* a name whose flag is set is not expanded but painted, and a painted identifier stays as it is, for ever *)
 Lemma ignored_painted_lemma : forall q d o cs ig n s r m, d s = Some m -> ignored ig s = true ->
@@ -954,4 +1022,61 @@ Lemma run_fuel_mono : forall q d fuel k s, run q d fuel s <> OutOfFuel -> run q 
 Proof.
   induction fuel as [|f IH]; intros k s H; cbn in *; [congruence|].
   destruct (step q d s); try reflexivity. apply IH; exact H.
+Qed.
+
+(* ---------- the argument theorem without side conditions ---------- *)
+Lemma run_end_inv : forall ig0 q d fuel s sF, table_clean d -> inv ig0 s -> run_end q d fuel s = Some sF ->
+  inv ig0 sF /\ step q d sF = Done.
+Proof.
+  induction fuel as [|f IH]; intros s sF Ht Hi H; cbn in H; [discriminate|].
+  destruct (step q d s) as [|s1|w] eqn:E; try discriminate.
+  - inversion H; subst; split; assumption.
+  - apply (IH s1 sF Ht); [|exact H]. pose proof (step_inv ig0 q d s Ht Hi) as Hs. rewrite E in Hs. exact Hs.
+Qed.
+
+Lemma iso_inv : forall arg ig, clean arg -> NoDup ig -> inv ig (mkst arg [] [] ig false).
+Proof.
+  intros arg ig Ha Hn. split; [|split; [reflexivity|]]; cbn [inp out calls ign].
+  - constructor; cbn; try constructor; [apply markers_clean; assumption|assumption].
+  - rewrite (cb_clean _ Ha). reflexivity.
+Qed.
+
+Lemma cb_zero_notin : forall l, cb l = 0 -> ~ In TBoa l.
+Proof.
+  induction l as [|t l IH]; intros H Hi; [exact Hi|]. destruct Hi as [->|Hi]; [discriminate|].
+  apply IH; [|exact Hi]. destruct t; cbn in H; try discriminate; exact H.
+Qed.
+
+Lemma done_complete : forall ig0 q d s, inv ig0 s -> step q d s = Done -> calls s = [] /\ ~ In TBoa (out s).
+Proof.
+  intros ig0 q d s [[H1 _ _ _ _] [_ Hc]] E. pose proof (step_done_inp q d s E) as Hi. rewrite Hi in *. cbn in H1, Hc.
+  assert (Hcs : calls s = []) by (destruct (calls s); [reflexivity|discriminate]).
+  split; [exact Hcs|]. rewrite Hcs in Hc. cbn in Hc. apply cb_zero_notin; exact Hc.
+Qed.
+
+(* C11 6.10.3.1 for every table and every argument (a token list without markers): if the loop, run on the
+   argument alone as if it were the file -- with the same macros being ignored -- reaches its end, then the run
+   inside T_BOA ... T_EOA does the same iterations whatever follows the argument, whatever was output before and
+   whichever calls are open, and what is appended to the call's repl_buffer at the T_EOA is the output of that run. *)
+Theorem arg_expanded_in_isolation_full : forall q d fuel arg ig sF rest out0 mc cs nl0,
+  table_clean d -> clean arg -> NoDup ig ->
+  run_end q d fuel (mkst arg [] [] ig false) = Some sF ->
+  exists n,
+    steps q d (S n) (mkst (TBoa :: arg ++ TEoa :: rest) out0 (mc :: cs) ig nl0)
+    = Some (mkst (TEoa :: rest) (out sF ++ TBoa :: out0) (mc :: cs) (ign sF) (nl sF))
+    /\ step q d (mkst (TEoa :: rest) (out sF ++ TBoa :: out0) (mc :: cs) (ign sF) (nl sF))
+       = run_repl q rest out0 (mkmc (mc_name mc) (mc_params mc) (mc_prev mc) (mc_rest mc) (mc_args mc)
+                                    (add_tokens (mc_buf mc) (rev (out sF)))) cs (ign sF).
+Proof.
+  intros q d fuel arg ig sF rest out0 mc cs nl0 Ht Ha Hn H.
+  destruct (run_end_inv ig q d fuel _ _ Ht (iso_inv arg ig Ha Hn) H) as [Hi Hd].
+  destruct (done_complete ig q d sF Hi Hd) as [Hc Hb].
+  eapply arg_expanded_in_isolation; eassumption.
+Qed.
+
+Lemma run_end_complete : forall ig0 q d fuel s sF, table_clean d -> inv ig0 s ->
+  run_end q d fuel s = Some sF -> calls sF = [] /\ ~ In TBoa (out sF).
+Proof.
+  intros ig0 q d fuel s sF Ht Hi H. destruct (run_end_inv ig0 q d fuel s sF Ht Hi H) as [H1 H2].
+  exact (done_complete ig0 q d sF H1 H2).
 Qed.
